@@ -419,7 +419,7 @@ def evalBkm (d : Defs) : Nat → Nat → Res
     | some b =>
       match fuel with
       | 0 => .diverge
-      | f + 1 => allM (fun r => seq (evalBkm d f r) fun _ => evalService d f r) b.reqs
+      | f + 1 => allM (evalBkm d f) b.reqs
 /-- The decision-service closure (`decision_service.rs:144-176`): input, encapsulated and
 output decisions. -/
 def evalService (d : Defs) : Nat → Nat → Res
